@@ -1,5 +1,5 @@
 """C05 -- inline-storage promise: E1 (FixedCapacityVector, SmallVector) and E2 (SmallSet), monitor 'inline'."""
-from checks import e1, e2
+from checks import c13, e1, e2
 
 
 def run(ctx):
@@ -7,4 +7,8 @@ def run(ctx):
     vm = [i for i in (e1.quick_matrix() if q else e1.thorough_matrix()) if e1.relevant("C05", i)]
     cov = e1.explore(ctx, vm, ["C05"])
     cov2 = e1.explore(ctx, e2.small_quick() if q else e2.small_thorough(), ["C05"], engine="E2", eng=e2.ENG)
-    return ctx.finish("model_checking", e1.merge_cov(cov, cov2), e1.ASSUME + e2.ASSUME[1:])
+    # swap2 (extras): an inline SmallVector exchanging with a fixed / inline / empty operand stays inline (explore_swap2.cpp)
+    pairs = [("fcv5", "sv2", "TC4"), ("sv3_8", "sv5_16", "TR"), ("sv2", "fcv3", "NTR")] if q else \
+        [(a, b, el) for (a, b), el in zip([(a, b) for a in ("fcv3", "fcv5", "sv2", "sv3_8", "sv5_16", "vec32") for b in ("sv2", "sv3_8", "sv5_16")], ["TC4", "TR", "NTR"] * 6)]
+    cov3 = e1.explore(ctx, [c13.inst(a, b, el, L=4 if q else 5) for a, b, el in pairs], ["C05"], engine="E1s", eng=c13.ENG)
+    return ctx.finish("model_checking", e1.merge_cov(e1.merge_cov(cov, cov2), cov3), e1.ASSUME + e2.ASSUME[1:])
